@@ -256,3 +256,18 @@ for p in PROPS:
         m["not_applicable"].append({"property_id": p, "reason": NA_REASON})
 json.dump(m, open(os.path.join(ROOT, "MANIFEST.json"), "w"), indent=1)
 print("checks:", [c["property_id"] for c in m["checks"]])
+
+
+# which check verifies which /repo function (from the evidence files as they are now): used by the checks to account for callee contracts
+import glob as _glob
+_ver = {}
+for _f in sorted(_glob.glob(os.path.join(ROOT, "evidence", "*.json"))):
+    try:
+        _d = json.load(open(_f))
+    except Exception:  # noqa
+        continue
+    if _d.get("property_id") == "C01":
+        continue            # C01's clauses are effects clauses, not the functional contracts call sites apply
+    for _fn in _d.get("coverage", {}).get("functions_under_contract", []):
+        _ver.setdefault(_fn["function"].split("#")[0].split("@")[0], set()).add(_d["property_id"])
+json.dump({k: sorted(v) for k, v in sorted(_ver.items())}, open(os.path.join(ROOT, "verified_by.json"), "w"), indent=0)
